@@ -1,5 +1,5 @@
 NAME = 'I-insert'
-PROPERTIES = ['C02', 'C10']
+PROPERTIES = ['C02', 'C10', 'C15']
 ENGINE = 'verus'
 CLASS = 'U'
 DOC = ('Operations::insert_row (storage database/operations.rs), the storage step of every single-row INSERT: the user-defined UNIQUE indexes are checked '
